@@ -21,6 +21,7 @@ def build_term(spec):
     kw = dict(spec.get('kw', {}))
     for k, v in list(kw.items()):
         if v == 'inf': kw[k] = float('inf')
+        if isinstance(v, dict) and '__set__' in v: kw[k] = set(v['__set__'])
     return getattr(mt, TERM_ALIAS.get(t, t))(**kw)
 
 REDUCERS = {'max': max, 'min': min, 'first': (lambda v: v[0]), 'sum': sum}
@@ -347,11 +348,37 @@ class Harness(object):
             return self.cost
         return None
 
+    def _sticky_kw(self, op):
+        """Step(constraints=..., penalty=...): mystic's sticky keyword settings (they reconfigure the solver from inside
+        the call that also runs the iteration).  The oracles are told first, as for the equivalent Set* call: the new
+        setting is in force for the evaluations of this very iteration."""
+        kw = {}
+        for key, what, cls in (('constraint_kw', 'constraint', SimConstraint), ('penalty_kw', 'penalty', SimPenalty)):
+            if key in op:
+                arg = op[key]
+                peer = cls(arg) if arg else None
+                if what == 'constraint': self.constraint = peer
+                else: self.penalty = peer
+                self.settings_epoch += 1
+                synth = {'op': 'set', 'what': what, 'arg': arg, 'via': 'step_keyword'}
+                self.run.observing = True
+                try:
+                    for o in self.oracles:
+                        g = getattr(o, 'after_op', None)
+                        if g: g(self, synth, {})
+                finally:
+                    self.run.observing = False
+                kw['constraints' if what == 'constraint' else 'penalty'] = peer
+                self.run.probe('step_keyword.%s' % what)
+        return kw
+
     def op_step(self, op):
         rets = []
+        sticky = self._sticky_kw(op)
         for i in range(op.get('n', 1)):
             before = self.steps_executed
             kw = self._step_kw(op)
+            if i == 0: kw.update(sticky)
             self.run.owner = self.cur
             if not self.started:
                 self.epoch_at_first_step = self.settings_epoch
@@ -389,6 +416,11 @@ class Harness(object):
 
     def op_finalize(self, op):
         self.solver.Finalize()
+
+    def op_clock(self, op):
+        """simulated time passes while the solver is idle between two calls"""
+        self.run.clock.advance(float(op['dt']), cpu=bool(op.get('cpu', True)))
+        self.run.probe('op.clock')
 
     def op_saveload(self, op):
         """the process ends here and a new one resumes from the restart file"""
